@@ -235,9 +235,18 @@ func worker(jobfile, outfile string) {
 	os.Stdout = devnull
 	for _, j := range jobs {
 		fmt.Fprintf(out, "START %d\n", j.ID)
-		r := runCase(j)
-		js, _ := json.Marshal(r)
-		fmt.Fprintf(out, "DONE %s\n", js)
+		done := make(chan result, 1)
+		go func() { done <- runCase(j) }()
+		select {
+		case r := <-done:
+			js, _ := json.Marshal(r)
+			fmt.Fprintf(out, "DONE %s\n", js)
+		case <-time.After(120 * time.Second):
+			// open / repair / check did not return (bounded time is part of the property)
+			fmt.Fprintf(os.Stderr, "HANG: case %d did not finish within 120 s\n", j.ID)
+			out.Close()
+			os.Exit(3)
+		}
 	}
 	out.Close()
 }
@@ -643,6 +652,8 @@ func main() {
 			sig := "process-crash"
 			if strings.Contains(crashed[j.ID], "SIGBUS") || strings.Contains(crashed[j.ID], "fault") {
 				sig = "process-crash-sigbus"
+			} else if strings.Contains(crashed[j.ID], "HANG") {
+				sig = "repair-hang"
 			}
 			t.Fail(sig, desc+" : the process running OpenDatabase/Repair/CheckDatabase died: "+crashed[j.ID])
 			t.Count("outcome=process-crash")
